@@ -729,12 +729,11 @@ func (c *Codec) DecodeStream(reader io.Reader) (framer.Frame, error) {
 			return errors.Newf("unknown channel key: %v", key)
 		}
 		s.DataType = dataType
-		if dataType.IsVariable() {
-			s.Data = make([]byte, dataLenOrSize)
-		} else {
-			s.Data = make([]byte, dataType.Density().Size(int64(dataLenOrSize)))
+		size := int64(dataLenOrSize)
+		if !dataType.IsVariable() {
+			size = int64(dataType.Density().Size(size))
 		}
-		if _, err = c.reader.Read(s.Data); err != nil {
+		if s.Data, err = c.readSeriesData(reader, size); err != nil {
 			return err
 		}
 		if !fgs.equalTimeRanges {
@@ -775,6 +774,56 @@ func (c *Codec) DecodeStream(reader io.Reader) (framer.Frame, error) {
 			return framer.Frame{}, err
 		}
 	}
+}
+
+// maxPrealloc is the largest series data buffer DecodeStream allocates before it has
+// read any of the bytes that are supposed to fill it.
+const maxPrealloc = 1 << 16
+
+// readSeriesData reads exactly size bytes of series data from src through c.reader.
+// size is derived from a length field on the wire, so it is not trusted for sizing the
+// buffer on its own: a few bytes of input could otherwise make the decoder allocate
+// gigabytes. When src is an in-memory reader that knows how many bytes it still holds
+// (bytes.Reader, as used by Decode, or bytes.Buffer), a size beyond that fails exactly
+// as the short read would have, before anything is allocated. For any other reader, buffers larger than
+// maxPrealloc start at maxPrealloc and at most double each time they have been filled,
+// so the memory allocated stays proportional to the bytes actually received.
+func (c *Codec) readSeriesData(src io.Reader, size int64) ([]byte, error) {
+	remaining := int64(-1)
+	switch r := src.(type) {
+	case *bytes.Reader:
+		remaining = int64(r.Len())
+	case *bytes.Buffer:
+		remaining = int64(r.Len())
+	}
+	if remaining >= 0 {
+		if size > remaining {
+			if remaining == 0 {
+				return nil, io.EOF
+			}
+			return nil, io.ErrUnexpectedEOF
+		}
+	} else if size > maxPrealloc {
+		data := make([]byte, maxPrealloc)
+		filled := 0
+		for {
+			if _, err := c.reader.Read(data[filled:]); err != nil {
+				if filled > 0 && errors.Is(err, io.EOF) {
+					err = io.ErrUnexpectedEOF
+				}
+				return nil, err
+			}
+			if filled = len(data); int64(filled) == size {
+				return data, nil
+			}
+			grown := make([]byte, min(2*int64(filled), size))
+			copy(grown, data)
+			data = grown
+		}
+	}
+	data := make([]byte, size)
+	_, err := c.reader.Read(data)
+	return data, err
 }
 
 // readTimeRange reads a time range using the codec's reader.
